@@ -80,6 +80,10 @@ def plan(ch, tier):
     if TOPOLOGIES[topo]["manual"]:
         kinds += [("plunge", 5)]
     bs_mode = topo == "t5" and ch.flag("bs_mode", 0.4)
+    if topo == "t4":
+        wk["weak_plunges"] = ch.flag("weak_plunges", 0.5)
+        if wk["weak_plunges"]:
+            wk["p_eject_fail"] = ch.pick("p_weak_plunge", [0.3, 0.5])
     if topo == "t7":
         # a ball is requested for the staging device itself (it keeps it until the playfield asks); ejects between devices
         # may lose their ball to the playfield (the path is then restored by a new request)
